@@ -290,10 +290,6 @@ def gen_op(rng, idx: int, flavour: str = "plain") -> dict:
         body = rng.choice([[J, MP], [MP, J], [J, FORM], [J, MP, FORM], [FORM, MP]])
     op = {"id": f"op{idx}", "tag": "alpha", "method": method, "path": path, "params": params, "body": body,
           "body_required": bool(body) and rng.random() < 0.5}
-    if len(body) > 1:
-        for p in params:
-            if p.get("slashy"):
-                p["slashy"] = "raw"
     if J in body and rng.random() < 0.4:
         op["json_model"] = True
     elif J in body and rng.random() < 0.5:
@@ -355,7 +351,7 @@ def cross_ops() -> list[dict]:
 def poisoned(op: dict) -> bool:
     """conservative: some python name may occur twice in the generated signature (SyntaxError kills the whole
     endpoints package, so such an operation gets a client of its own)"""
-    names = [mn(mn(p["name"])) for p in op["params"] if not (len(op["body"]) > 1 and p["in"] == "cookie")]
+    names = [mn(mn(p["name"])) for p in op["params"]]
     names.append("self")
     if len(op["body"]) > 1:
         names += sorted({multi_body_var(ct) for ct in op["body"]}) + ["content_type"]
@@ -547,8 +543,7 @@ def kwargs_of(op: dict, a: dict) -> list:
     kw: dict[str, Any] = {}
     if multi:
         for p in ordered_params(op):
-            if p["in"] != "cookie":
-                kw[mn(p["name"])] = None
+            kw[mn(p["name"])] = None
     for loc, name, v in a["params"]:
         kw[mn(name) if multi else mn(mn(name))] = v
     if a["body"] is not None:
@@ -665,7 +660,7 @@ def oracle(op: dict, a: dict, obs: dict) -> list[str]:
 
 
 # ------------------------------------------------------------------------------------------- Coq printers
-GUARD_FINDINGS = {1: "F04b", 2: "F04c", 3: "F04d", 4: "F04f", 5: "F04i", 6: "F04k"}   # bit k of Corr.C04.run
+GUARD_FINDINGS = {1: "F04j", 2: "F04c", 3: "F04d", 4: "F04f", 5: "F04i", 6: "F04k"}   # bit k of Corr.C04.run
 LOC = {"path": "Path", "query": "Query", "header": "Header", "cookie": "Cookie"}
 TY = {"str": "TStr", "int": "TInt", "bool": "TBool", "enum": "TEnum", "date": "TDate", "datetime": "TDateTime"}
 
